@@ -1,5 +1,5 @@
 CONSTANTS JCs = {1} Horizon = 4 Ids = {0,1,2} Windows <- W0 MaxMissed = 2 MaxDown = 3 MaxOps = 2 MaxLag = 1 MaxFaults = 0 MaxRestarts = 0 MaxTick = 2
-  Pols = {"Allow"} PreBoot = FALSE WithRecon = FALSE Workers = {1}
+  Pols = {"Allow"} PreBoot = FALSE WithRecon = FALSE Workers = {1} Relists = FALSE
 SPECIFICATION Spec
 INVARIANTS TypeOK C02_AtMostOne C02_Requested C20_Served
 PROPERTIES C01_C03_C04_Pass C04_BootHeap
